@@ -627,7 +627,7 @@ func c19Feeds(run *ev.Run, tier string) int64 {
 							cls := strings.SplitN(f[1], ":", 2)[0]
 							run.Hist("feeder_results", name+" "+cls+" "+res)
 							run.Distinct(name + "|" + f[1])
-							if f[1] == "baseline" && res != "OK" {
+							if f[1] == "baseline" && res == "ERR" {
 								ev.Internal("C19: fault-free %s cycle against the stub did not succeed (%s)", name, l)
 							}
 							if res == "PANIC" {
@@ -666,6 +666,9 @@ func c19Feeds(run *ev.Run, tier string) int64 {
 					continue // confirm: the worker is deterministic, the same case comes up again
 				}
 				run.Report(fmt.Sprintf("%s feeder=%s case=%s", kind, name, c19CaseClass(curID)), fmt.Sprintf("%s cycle, case %s: %s, confirmed 3 times", name, curID, what), map[string]any{"kind": "feeder-case", "feeder": name, "case": curID})
+				if curID == "baseline" {
+					return // not even the fault-free cycle ends: nothing further to explore for this feeder
+				}
 				skips = append(skips, curID)
 				if strings.HasPrefix(curID, "hostile:") {
 					skips = append(skips, "class:"+c19CaseClass(curID))
